@@ -3,6 +3,7 @@ package props
 import (
 	"bytes"
 	"encoding/base64"
+	"errors"
 	"fmt"
 	"github.com/fullstorydev/grpchan"
 	"io"
@@ -218,6 +219,14 @@ func checkC11(e *core.Env) {
 		run := svc.NewRun(sc, "http-direct")
 		defer svc.Forget(run)
 		hr := httptest.NewRequest("POST", path, bytes.NewReader(body))
+		brokenUpload := kind == Unary && bodyClass == "valid" && len(body) > 2 && r.Intn(12) == 0
+		if brokenUpload {
+			// an upload that breaks off (the connection went away mid-body): the handler does not run, and
+			// nothing of this request shows up in a later one
+			bodyClass = "broken-upload"
+			hr = httptest.NewRequest("POST", path, &cutBody{data: append([]byte{}, body[:1+r.Intn(len(body)-1)]...), step: 7, endErr: errors.New("read tcp: connection reset by peer")})
+			hr.ContentLength = int64(len(body))
+		}
 		hr.Method = method
 		for k, v := range hdr {
 			hr.Header[k] = v
@@ -254,6 +263,12 @@ func checkC11(e *core.Env) {
 				e.Violate(sig+"panic-in-handler-op/"+bodyClass, "a stream operation of the handler panicked inside the library: "+trunc(ev.Pan, 500), w)
 				break
 			}
+		}
+		if brokenUpload {
+			if count != 0 && pathClass != "unknown" {
+				e.Violate(sig+"handler-ran-for-broken-upload", fmt.Sprintf("the request body broke off before it was complete; the handler ran (HTTP %d)", rec.Code), w)
+			}
+			return
 		}
 		if count > 1 {
 			e.Violate(sig+"handler-twice", fmt.Sprintf("handler invoked %d times", count), w)
